@@ -69,6 +69,8 @@ def _validate(v, item, max_events):
             n = max_events
         r = vlib.tlc("HeapTrace", "HeapTrace.cfg", workers=1, timeout=600, env={"TRACE": trace}, coverage=False, xmx="3g")
         if r.error and not r.violated and not ("Postcondition Accepted" in r.out and "is false" in r.out):
+            r = vlib.tlc("HeapTrace", "HeapTrace.cfg", workers=1, timeout=600, env={"TRACE": trace}, coverage=False, xmx="3g")   # a JVM-level failure (I/O under load): once more
+        if r.error and not r.violated and not ("Postcondition Accepted" in r.out and "is false" in r.out):
             raise Infra("TLC failed while validating the heap trace of %s: %s" % (name, (r.error or "")[:300]))
         if ("Postcondition Accepted" in r.out and "is false" in r.out) or r.violated:
             k = max(0, r.depth - 1)
